@@ -14,6 +14,10 @@ SITES = [
     ("ambiguous-three", "from t | join u (==k) | join v = u (t.k == v.k) | filter a > 1"),
     ("alias-sort", "from t | sort {a, -a, k} | select {k, x = k // 2} | take 1 | select {x28 = k, x29 = k}"),
     ("this-star-tie", "from t | select {x = a + 1, t.k} | join u (==k) | group {x} (take 1)"),
+    ("this-star-tie-group", "from t | select {x = a + 1, t.k} | join u (==k) | group {t.k} (take 1)"),
+    ("this-star-tie-exclude", "from t | select {x = a + 1, t.k} | join u (==k) | select !{t.k}"),
+    ("this-star-tie-declared", "module default_db {\n  let t <[{k = int, a = int, b = int}]>\n  let u <[{k = int, a = int, c = int}]>\n}\nfrom t | select {x = a + 1, t.k} | join u (==k) | select !{t.k}"),
+    ("this-star-tie-3", "from t | derive {y = b} | select {k, p = a, q = y} | join u (==k) | join v = u (t.k == v.k) | select !{p}"),
     ("dup-names-at-split", "from t | join u (==k) | take 3 | derive {s = sum t.b} | select {t.a, u.a, t.k, u.k, s}"),
     ("many-sorts", "from t | sort {b, -a, k} | derive {p = a, q = a, r = b} | take 5 | sort {q, p} | select {p, q, r} | take 2"),
     ("unknown-name-hints", "from t | derive {x1 = a, x2 = a, x3 = b} | select {x1, x2, x3} | filter zzz > 1"),
